@@ -33,6 +33,8 @@ func runC01(c *Check) {
 	c05OneInFlight(c, P, g)
 	c04PublishCopies(c, P, g)
 	c04NoSharedWrites(c, P+".O4", g)
+	gcSafety(c, P, g)
+	c07Decorator(c, P+".S")
 	// every hop hands a Copy() to the next stage: it must be a complete message (own, non-nil metadata; same UUID, payload, entries)
 	c16Copy(c, P+".O4")
 	// O5 NO-INVENTION: provenance of every message handed to the deliver function
